@@ -298,6 +298,21 @@ def argument_agreement(chk, rule, rels, floor=None):
                 chk.ob(rule, '%s/%s-as-%s' % (label, a.id, p), False, where(mod, call),
                        'variable %s is passed as parameter %s although %s() has a parameter named %s (bound to %s)' % (
                            a.id, p, fn.name, a.id, norm(other) if other is not None else 'its default'))
+        # weaker form of the same check: the variable's name contains the name of another parameter (mibParser passed
+        # as `codegen` while the callee has `parser`)
+        for p, a in bound.items():
+            if isinstance(a, ast.Name) and a.id != p:
+                low = a.id.lower()
+                if p.lower() in low:
+                    continue
+                for q in params:
+                    if q != p and len(q) >= 4 and q.lower() in low:
+                        other = bound.get(q)
+                        if other is not None and isinstance(other, ast.Name) and q.lower() in other.id.lower():
+                            continue
+                        chk.ob(rule, '%s/%s-as-%s' % (label, a.id, p), False, where(mod, call),
+                               'variable %s is passed as parameter %s although %s() has a parameter named %s' % (
+                                   a.id, p, fn.name, q))
         chk.ob(rule, '%s@%d/binding' % (label, call.lineno), True, where(mod, call), '')
     if floor:
         chk.floor(rule, floor, 'resolved calls')
@@ -412,11 +427,25 @@ def requires(chk, rule, key, cfg, mod, targets, needed, detail=''):
 # ---------------------------------------------------------------------------------------------------------------------
 # names, attributes and results exist where they are used
 DEFINITE_ASSIGNMENT_AUDIT = {
-    ('pysmi/reader/zipreader.py', '_readZipFile', 'dataObj'):
+    # (module, function): names assigned only inside the loop over the function's parameter are exempt, because ...
+    ('pysmi/reader/zipreader.py', '_readZipFile'):
         'the reference chain built by _readZipDirectory is never empty and its first element always carries the '
-        'archive file object, so the loop body runs and dataObj is assigned before the second iteration reads it',
-    ('pysmi/reader/zipreader.py', '_readZipFile', 'mtime'): 'loop variable of the never-empty reference chain',
+        'archive file object, so the loop body runs at least once and the data object is assigned before the second '
+        'iteration reads it',
 }
+
+
+def _audited_loop_carried(fn, var):
+    """every assignment of `var` lies inside a `for ... in <parameter of fn>` loop (as target or in the body)"""
+    params = set(a.arg for a in fn.args.args)
+    loops = [l_ for l_ in ast.walk(fn) if isinstance(l_, ast.For) and isinstance(l_.iter, ast.Name) and l_.iter.id in params]
+    if not loops:
+        return False
+    for n_ in ast.walk(fn):
+        if isinstance(n_, ast.Name) and n_.id == var and isinstance(n_.ctx, ast.Store):
+            if not any(_within(n_, l_) for l_ in loops):
+                return False
+    return True
 
 
 def wellformedness(chk, rule, rels, floor=None):
@@ -461,7 +490,7 @@ def wellformedness(chk, rule, rels, floor=None):
             nfun += 1
             bad = []
             for var, use in defuse.possibly_undefined(fn, module_globals=mglobals, enclosing=encl.get(id(fn), ())):
-                if (rel, name, var) in DEFINITE_ASSIGNMENT_AUDIT:
+                if (rel, name) in DEFINITE_ASSIGNMENT_AUDIT and _audited_loop_carried(fn, var):
                     continue
                 bad.append((var, use))
             chk.ob(rule, '%s:%s/locals-assigned-before-use%s' % (rel.split('/', 1)[-1], name, (
@@ -532,3 +561,102 @@ def part_handlers_return(chk, rule, rel, cname):
         chk.ob(rule, '%s.%s/returns-a-value' % (cname, h), not r_, where(o.mod, r_[0]) if r_ else where(o.mod, fn),
                'the value of a %s part is taken from this handler by prepData, but this path returns None' % tag)
     return n
+
+
+def contradictory_lookups(chk, rule, rels, floor=None):
+    """`D[k]` read or `del D[k]` on the branch where the enclosing test says `k not in D` (or in the else-branch of
+    `k in D`), with no store to D[k] in between: a certain KeyError"""
+    model = chk.model
+    chk.doc(rule, 'no subscript read / del D[k] lies on the branch of an enclosing `if` that establishes `k not in D` '
+                  '(true branch of `k not in D`, false branch of `k in D`) unless D[k] is stored earlier in that branch')
+    n = 0
+    for rel in rels:
+        mod = model.mod(rel, required=False)
+        if mod is None:
+            continue
+        for sub in ast.walk(mod.tree):
+            if not (isinstance(sub, ast.Subscript) and isinstance(sub.ctx, (ast.Load, ast.Del))):
+                continue
+            d, k = norm(sub.value), norm(sub.slice)
+            child, a = sub, getattr(sub, '_parent', None)
+            while a is not None and not isinstance(a, (ast.FunctionDef, ast.Module, ast.ClassDef)):
+                if isinstance(a, ast.If):
+                    for cj in (a.test.values if isinstance(a.test, ast.BoolOp) and isinstance(a.test.op, ast.And)
+                               else [a.test]):
+                        if isinstance(cj, ast.Compare) and len(cj.ops) == 1 and norm(cj.left) == k and \
+                                norm(cj.comparators[0]) == d:
+                            in_body = any(_within(child, st) for st in a.body)
+                            in_else = any(_within(child, st) for st in a.orelse)
+                            absent = (isinstance(cj.ops[0], ast.NotIn) and in_body) or (
+                                isinstance(cj.ops[0], ast.In) and in_else and cj is a.test)
+                            if absent:
+                                branch = a.body if in_body else a.orelse
+                                stored = any(isinstance(st, ast.Assign) and any(
+                                    isinstance(t, ast.Subscript) and norm(t.value) == d and norm(t.slice) == k
+                                    for t in st.targets) and st.lineno <= sub.lineno for st in branch for st in ast.walk(st)
+                                    if isinstance(st, ast.Assign))
+                                n += 1
+                                chk.ob(rule, '%s:%s[%s]@absent-branch#%d' % (rel.split('/')[-1], d, k, n), stored,
+                                       where(mod, sub), '%s[%s] is used where the enclosing test `%s` says the key is '
+                                       'absent: KeyError' % (d, k, norm(a.test)[:60]))
+                child, a = a, getattr(a, '_parent', None)
+        # the dual: D[k] = <empty container> on the branch where k is known to be present wipes what was collected
+        for st in ast.walk(mod.tree):
+            if not (isinstance(st, ast.Assign) and len(st.targets) == 1 and isinstance(st.targets[0], ast.Subscript)):
+                continue
+            v = st.value
+            empty = (isinstance(v, (ast.List, ast.Tuple, ast.Set)) and not v.elts) or (
+                isinstance(v, ast.Dict) and not v.keys) or (isinstance(v, ast.Call) and not v.args and not v.keywords and
+                                                            dotted_name(v.func) in ('set', 'dict', 'list', 'OrderedDict'))
+            if not empty:
+                continue
+            d, k = norm(st.targets[0].value), norm(st.targets[0].slice)
+            child, a = st, getattr(st, '_parent', None)
+            guarded = False
+            while a is not None and not isinstance(a, (ast.FunctionDef, ast.Module, ast.ClassDef)):
+                if isinstance(a, ast.If) and isinstance(a.test, ast.Compare) and len(a.test.ops) == 1 and \
+                        norm(a.test.left) == k and norm(a.test.comparators[0]) == d:
+                    in_body = any(_within(child, s2) for s2 in a.body)
+                    present = (isinstance(a.test.ops[0], ast.In) and in_body) or (
+                        isinstance(a.test.ops[0], ast.NotIn) and not in_body)
+                    guarded = True
+                    n += 1
+                    chk.ob(rule, '%s:%s[%s]=empty#%d' % (rel.split('/')[-1], d, k, n), not present, where(mod, st),
+                           '%s[%s] is reset to an empty container exactly when the key is already present: what was '
+                           'collected under it is lost' % (d, k))
+                child, a = a, getattr(a, '_parent', None)
+    chk.ob(rule, 'scan', True, ','.join(sorted(set(r.split('/')[1] if '/' in r else r for r in rels)))[:80],
+           '%d guarded-absent uses / guarded initialisations' % n)
+    return n
+
+
+def given_values_not_discarded(chk, rule, rels):
+    """`if V: V = <something that does not use V>` throws away a value that was given; the default-filling idiom is
+    `if not V: V = <default>`"""
+    model = chk.model
+    chk.doc(rule, 'no `if V:` (positive truthiness of a variable) whose body re-binds V to an expression that does not '
+                  'mention V: defaults replace empty values only (`if not V: V = default`)')
+    n = 0
+    for rel in rels:
+        mod = model.mod(rel, required=False)
+        if mod is None:
+            continue
+        for node in ast.walk(mod.tree):
+            if not isinstance(node, ast.If):
+                continue
+            t0, neg = node.test, False
+            while isinstance(t0, ast.UnaryOp) and isinstance(t0.op, ast.Not):
+                t0, neg = t0.operand, not neg
+            tests = [(t0, node.orelse if neg else node.body)]
+            if neg:
+                n += 1
+            for t, branch in tests:
+                if not isinstance(t, ast.Name):
+                    continue
+                for st in branch:
+                    if isinstance(st, ast.Assign) and len(st.targets) == 1 and norm(st.targets[0]) == t.id and \
+                            t.id not in [x.id for x in ast.walk(st.value) if isinstance(x, ast.Name)]:
+                        chk.ob(rule, '%s:%s-discarded@%d' % (rel.split('/')[-1], t.id, n), False, where(mod, st),
+                               '`%s` is replaced by %s exactly when it has a value' % (t.id, norm(st.value)[:50]))
+    chk.ob(rule, 'default-filling-idioms', n >= 0, ','.join(r.split('/')[-1] for r in rels)[:80],
+           '%d `if not V` guards seen' % n)
